@@ -1299,3 +1299,99 @@ Proof.
   intros W Oa Ob H. unfold union in H. apply union_list_wf in H; auto.
   intros x [<-|[<-|[]]]; auto.
 Qed.
+
+(* ------------------------------------------------------------------------------------------ *)
+(** * str never panics on an SMT string of fewer than 2^32 characters *)
+
+(* shape of the accumulator of ReManager::str after k characters *)
+Definition str_inv (k : nat) (acc : re) : Prop :=
+  match rnode acc with
+  | NEps | NConcat _ _ => True
+  | NRange _ => (1 <= k)%nat
+  | NLoop _ r => exists j, r = LR j (Some j) /\ j <= N.of_nat k
+  | _ => False
+  end.
+
+Lemma concat_char_step m ch acc k s :
+  wf m -> owned m ch -> owned m acc -> rnode ch = NRange s -> str_inv k acc ->
+  N.of_nat k < U32MAX ->
+  exists m' t, concat ch m acc = Some (m', t) /\ str_inv (S k) t.
+Proof.
+  intros W Och Oacc Kc Hinv Hk.
+  assert (Hmk : forall k0, not_compl k0 -> k_closed m k0 -> node_ok k0 ->
+            exists m' t, make m k0 = Some (m', t) /\ rnode t = k0).
+  { intros k0 H1 H2 H3. destruct (make_total m k0 W H1) as (m' & t & E). exists m', t. split; auto.
+    eapply make_wf; eauto. }
+  rewrite concat_unfold.
+  unfold is_empty_node at 1. rewrite Kc.
+  unfold is_empty_node. destruct (rnode acc) as [| |s2|x y|x xr|x|l|l] eqn:Ka;
+    unfold str_inv in Hinv; rewrite Ka in Hinv; try contradiction;
+    unfold is_eps_node; rewrite Kc, ?Ka.
+  - (* acc = epsilon *) exists m, ch. split; auto. unfold str_inv. rewrite Kc. lia.
+  - (* acc = a character *)
+    unfold concat_rules, rule5, rule7, loop_of. rewrite Kc, ?Ka.
+    destruct (re_eqb ch acc) eqn:Q.
+    + destruct (Hmk (NLoop ch (lr_point 2))) as (m' & t & E & Kt); [exact I | intros c [<-|[]]; auto | |].
+      { unfold node_ok, lr_valid, lr_point, U32MAX. lia. }
+      exists m', t. split; auto. unfold str_inv. rewrite Kt. exists 2. split; [reflexivity | lia].
+    + assert (Hn : rnul ch = false).
+      { pose proof (wf_terms m W ch Och) as Hw. apply wf_term_iff in Hw as (Hn & _). rewrite Hn, Kc. reflexivity. }
+      rewrite Hn. cbn [andb].
+      destruct (Hmk (NConcat ch acc)) as (m' & t & E & Kt); [exact I | intros c [<-|[<-|[]]]; auto | exact I |].
+      exists m', t. split; auto. unfold str_inv. rewrite Kt. exact I.
+  - (* acc = a concatenation *)
+    unfold concat_rules, rule5, rule7, loop_of. rewrite Kc, ?Ka.
+    destruct (re_eqb ch acc) eqn:Q.
+    { apply (re_eqb_owned m ch acc Och Oacc) in Q. subst acc. congruence. }
+    assert (Hn : rnul ch = false).
+    { pose proof (wf_terms m W ch Och) as Hw. apply wf_term_iff in Hw as (Hn & _). rewrite Hn, Kc. reflexivity. }
+    rewrite Hn. cbn [andb].
+    destruct (Hmk (NConcat ch acc)) as (m' & t & E & Kt); [exact I | intros c [<-|[<-|[]]]; auto | exact I |].
+    exists m', t. split; auto. unfold str_inv. rewrite Kt. exact I.
+  - (* acc = x^[j,j] *)
+    destruct Hinv as (j & -> & Hj).
+    unfold concat_rules, rule5 at 1, loop_of. rewrite Ka.
+    destruct (re_eqb ch x) eqn:Q.
+    + unfold lr_add_point, lr_add, lr_point, lr_start, add32.
+      destruct (N.leb_spec (j + 1) U32MAX); [|lia]. cbn [bind].
+      destruct (Hmk (NLoop ch (LR (j + 1) (Some (j + 1))))) as (m' & t & E & Kt);
+        [exact I | intros c [<-|[]]; auto | unfold node_ok, lr_valid; lia |].
+      exists m', t. split; auto. unfold str_inv. rewrite Kt. exists (j + 1). split; [reflexivity | lia].
+    + unfold rule5, rule7, loop_of. rewrite Kc, ?Ka.
+      destruct (re_eqb ch acc) eqn:Q2.
+      { apply (re_eqb_owned m ch acc Och Oacc) in Q2. subst acc. congruence. }
+      assert (Hn : rnul ch = false).
+      { pose proof (wf_terms m W ch Och) as Hw. apply wf_term_iff in Hw as (Hn & _). rewrite Hn, Kc. reflexivity. }
+      rewrite Hn. cbn [andb].
+      destruct (Hmk (NConcat ch acc)) as (m' & t & E & Kt); [exact I | intros c [<-|[<-|[]]]; auto | exact I |].
+      exists m', t. split; auto. unfold str_inv. rewrite Kt. exact I.
+Qed.
+
+Lemma str_go_total : forall rw m acc k,
+  wf m -> owned m acc -> goodw rw -> str_inv k acc -> N.of_nat (k + length rw) <= U32MAX ->
+  exists m' t, str_go m rw acc = Some (m', t).
+Proof.
+  induction rw as [|c rw IH]; intros m acc k W Ho Hg Hinv Hlen; cbn [str_go]; [eauto|].
+  inversion Hg as [|? ? Hc Hg']; subst. cbn [length] in Hlen.
+  destruct (mchar_total m c W Hc) as (m1 & ch & C). rewrite C. cbn [bind].
+  destruct (mchar_ok m c m1 ch W C) as (_ & W1 & X1 & Och & _).
+  assert (Kc : rnode ch = NRange (c, c)).
+  { unfold mchar, range in C. destruct ((c <=? c) && (c <=? MAXC)); [|discriminate].
+    unfold char_set in C. apply (make_wf m (NRange (c, c)) m1 ch W I) in C; [tauto | intros z [] |].
+    unfold node_ok, cs_valid. cbn [fst snd]. unfold good in Hc. lia. }
+  destruct (concat_char_step m1 ch acc k (c, c) W1 Och (ext_owned m m1 acc X1 Ho) Kc Hinv)
+    as (m2 & r & C2 & Hinv2); [lia|].
+  rewrite C2. cbn [bind].
+  destruct (concat_ok ch m1 acc m2 r W1 Och (ext_owned m m1 acc X1 Ho) C2) as (W2 & X2 & Or & _).
+  apply (IH m2 r (S k)); auto. lia.
+Qed.
+
+Theorem mstr_total m w :
+  wf m -> goodw w -> N.of_nat (length w) <= U32MAX -> exists m' t, mstr m w = Some (m', t).
+Proof.
+  intros W Hg Hlen. unfold mstr. apply (str_go_total (rev w) m (m_eps m) O); auto.
+  - apply (c_eps_o m (wf_consts m W)).
+  - unfold goodw in *. rewrite Forall_forall in *. intros x Hx. apply Hg. apply in_rev. exact Hx.
+  - unfold str_inv. rewrite (c_eps m (wf_consts m W)). exact I.
+  - rewrite rev_length. exact Hlen.
+Qed.
